@@ -77,10 +77,32 @@ func ReadData(r io.Reader) ([]byte, error) {
 		return nil, err
 	}
 
-	buf := make([]byte, dataSize)
-	_, err = io.ReadFull(r, buf)
-	if err != nil {
-		return nil, err
+	return readBounded(r, dataSize)
+}
+
+// readChunkSize is the largest number of bytes allocated ahead of the data actually read.
+const readChunkSize = 1 << 16
+
+// readBounded reads exactly n bytes from r. The buffer grows as data arrives, so a declared
+// length which the reader cannot satisfy costs at most readChunkSize bytes beyond what was read.
+func readBounded(r io.Reader, n uint32) ([]byte, error) {
+	first := n
+	if first > readChunkSize {
+		first = readChunkSize
+	}
+
+	buf := make([]byte, 0, first)
+	for uint32(len(buf)) < n {
+		step := n - uint32(len(buf))
+		if step > readChunkSize {
+			step = readChunkSize
+		}
+
+		start := len(buf)
+		buf = append(buf, make([]byte, step)...)
+		if _, err := io.ReadFull(r, buf[start:]); err != nil {
+			return nil, err
+		}
 	}
 
 	return buf, nil
